@@ -365,6 +365,271 @@ def check_case(ctx, real, model, case, sample=True):
             real.broken = True
 
 
+
+# ---------------------------------------------------------------------------------------------------------------------
+# conditional event handlers (`event{condition}`) and conditional config-player entries
+# ---------------------------------------------------------------------------------------------------------------------
+from harness.common import cond_c16 as cd
+
+
+def cond_model_lines(obs, case):
+    """the handlers of the event in the implementation's list order, as driver lines; ids = position in that order"""
+    lines = ["hclear"]
+    for k, v in case["post"]["kwargs"].items():
+        lines.append("kw %s %s" % (k, " ".join(val_tokens(v))))
+    for i, h in enumerate(obs["order"]):
+        typ, d = h["desc"]
+        c = d["cond"]
+        lines.append(("hreg %d %d %s" % (i, h["prio"], " ".join(tokens(c)) if c is not None else "")).rstrip())
+        for k, v in h["hkw"].items():
+            lines.append("hkw %d %s %s" % (i, k, " ".join(val_tokens(v))))
+        if typ == "plain":
+            for a in d["acts"]:
+                loc, v = {"mvar": lambda: ("machine." + a[1], a[2]), "setting": lambda: ("settings.s1", a[2]),
+                          "pvar": lambda: ("current_player." + a[1], a[2]), "counter": lambda: ("device.counters.c1.value", a[1]),
+                          "cen": lambda: ("device.counters.c1.enabled", a[1])}[a[0]]()
+                lines.append("hset %d %s %s" % (i, loc, " ".join(val_tokens(v))))
+            if isinstance(d["ret"], dict):
+                for k, v in d["ret"].items():
+                    lines.append("hret %d %s %s" % (i, k, " ".join(val_tokens(v))))
+            elif d["ret"] is False:
+                lines.append("hfalse %d" % i)
+        elif typ == "vp":
+            for it in d["items"]:
+                loc = ("current_player." if it[2] in ("set", "add") else "machine.") + it[0]
+                ct = (" " + " ".join(tokens(it[1]))) if it[1] is not None else ""
+                if it[2] in ("set", "set_machine"):
+                    lines.append("hset %d %s i %d%s" % (i, loc, it[3], ct))
+                else:
+                    lines.append("hadd %d %s %d%s" % (i, loc, it[3], ct))
+        else:
+            for it in d["items"]:
+                lines.append(("hfire %d %s %s" % (i, it[0], " ".join(tokens(it[1])) if it[1] is not None else "")).rstrip())
+    return lines
+
+
+def check_cond(ctx, real, model, group, case, sample=True):
+    """one post on the machine of `group`: the oracle (a conditional handler / entry acts iff its condition is true on the
+    values at ITS turn) and the comparison with the Lean dispatcher"""
+    obs = real.run_case(case)
+    kind = case["post"]["kind"]
+    rep = {"kind": "cond", "group": repr(group), "case": repr(case)}
+    order = obs["order"]
+    n_cond = sum(1 for h in order if h["desc"][1]["cond"] is not None)
+    ctx.evaluated({"group": repr(group["entries"]), "case": repr(case)}, n_cond >= 1 and len(order) >= 2, sample=sample)
+    ctx.count("cond_cases")
+    ctx.count("cond_post_" + kind)
+    ctx.count("cond_state_" + ("game" if case["pre"][0][1] else "nogame"))
+    # ---- oracle: walk the handlers in the order of the implementation's list; the values at a handler's turn are the values
+    # the last handler that ran left (its exit snapshot, read from the machine), the kwargs those of the post updated by relays
+    kw = dict(case["post"]["kwargs"])
+    kw0 = dict(kw)
+    state = obs["env0"]
+    log = list(obs["log"])
+    expect_fired = []
+    claims = True
+    for pos, h in enumerate(order):
+        typ, d = h["desc"]
+        merged = dict(kw)
+        merged.update(h["hkw"])
+        want = cd.verdict(d["cond"], state, merged)
+        ctx.count("cond_handler_" + typ)
+        if want in ("crash", "unmodelled"):
+            ctx.count("cond_verdict_" + want)
+            claims = False
+            break
+        ran = bool(log) and log[0]["hid"] == h["hid"]
+        if d["cond"] is not None:
+            ctx.count("cond_verdict_true" if want else "cond_verdict_false")
+            first = cd.verdict(d["cond"], obs["env0"], dict(kw0, **h["hkw"]))
+            if state != obs["env0"] or kw != kw0:
+                ctx.count("cond_turn_after_a_change")
+            if first != want:
+                ctx.count("cond_verdict_differs_from_start_of_post")
+                if any(o["desc"][1]["cond"] == d["cond"] for o in order[:pos]):
+                    ctx.count("cond_verdict_differs_same_text_earlier")
+        if want != ran:
+            ctx.fail("stale-handler:%s:%s:%s" % (typ, kind, "ran-on-false" if ran else "skipped-on-true"), rep,
+                     {"handler": h["hid"], "condition": None if d["cond"] is None else cd.cond_text(d["cond"]),
+                      "values_at_its_turn": repr(state["vals"]), "kwargs_at_its_turn": repr(merged),
+                      "condition_there": want, "ran": ran, "values_at_post": repr(obs["env0"]["vals"])})
+            return
+        if not ran:
+            continue
+        rec = log.pop(0)
+        if rec["out"] is None:            # the handler raised
+            claims = False
+            break
+        if rec["in"] != state:
+            ctx.count("cond_entry_values_differ_from_previous_exit")
+        if typ == "vp" and d["where"] != "g" and not real.m.modes[d["where"]].active:
+            pass
+        elif typ == "vp":
+            sim = dict(rec["in"]["vals"])
+            ok = True
+            for it in d["items"]:
+                v = cd.verdict(it[1], {"vals": sim, "objs": rec["in"]["objs"]}, rec["kw"])
+                if v in ("crash", "unmodelled"):
+                    ok = False
+                    break
+                if it[1] is not None:
+                    ctx.count("cond_item_true" if v else "cond_item_false")
+                    if v != cd.verdict(it[1], rec["in"], rec["kw"]):
+                        ctx.count("cond_item_differs_from_entry")
+                if v:
+                    cd.apply_item(sim, it)
+            if not ok:
+                claims = False
+                break
+            if sim != rec["out"]["vals"]:
+                ctx.fail("stale-entry:variable_player:%s" % kind, rep,
+                         {"handler": h["hid"], "values_on_entry": repr(rec["in"]["vals"]), "expected_on_exit": repr(sim),
+                          "on_exit": repr(rec["out"]["vals"])})
+                return
+        elif typ == "ep":
+            for it in d["items"]:
+                v = cd.verdict(it[1], rec["in"], rec["kw"])
+                if v in ("crash", "unmodelled"):
+                    claims = False
+                    break
+                if v:
+                    expect_fired.append(it[0])
+            if not claims:
+                break
+        state = rec["out"]
+        if kind == "relay" and isinstance(rec["res"], dict):
+            kw.update(rec["res"])
+        if kind == "boolean" and rec["res"] is False:
+            ctx.count("cond_boolean_stopped")
+            break
+    if not claims:
+        ctx.count("cond_no_claim")
+        return
+    if obs["crashed"]:
+        ctx.fail("dispatch-crash:%s" % kind, rep, {"exception": obs["crashed"]})
+        return
+    if log:
+        ctx.count("cond_log_leftover")       # a handler ran out of list order: not this property's business (C01)
+    if sorted(obs["fired"]) != sorted(expect_fired):
+        ctx.fail("stale-entry:event_player:%s" % kind, rep, {"fired": obs["fired"], "expected": expect_fired})
+        return
+    # ---- the model -------------------------------------------------------------------------------------------------
+    if model is None:
+        return
+    model_set_env(model, dict(obs["env0"], params={}), {})
+    for line in cond_model_lines(obs, case):
+        if model.ask(line) != "ok":
+            raise InfraError("model rejected %s" % line)
+    mo = model.ask("order")
+    ctx.compare(dict(rep, what="order"), "order" + "".join(" %d" % i for i in range(len(order))), mo)
+    ans = model.ask("dispatch %s %s" % (kind, " ".join(cd.CLOCS)))
+    if ans == "bad-op":
+        raise InfraError("model dispatch")
+    if ans.startswith("unmodelled"):
+        ctx.count("skipped_unmodelled_model")
+        return
+    ids = {h["hid"]: i for i, h in enumerate(order)}
+    vals = obs["env1"]["vals"]
+    impl = "ok | ran%s | fired%s | vals%s | kw%s" % (
+        "".join(" %d" % ids[r["hid"]] for r in obs["log"]), "".join(" " + t for t in obs["fired"]),
+        "".join(" " + ("ABSENT" if vals[l] is ABSENT else show_val(vals[l])) for l in cd.CLOCS),
+        "".join(" %s=%s" % (k, show_val(kw[k])) for k in ("x", "y", "z") if k in kw) if kind == "relay" else
+        "".join(" %s=%s" % (k, show_val(kw0[k])) for k in ("x", "y", "z") if k in kw0))
+    ctx.compare(dict(rep, what="dispatch"), impl, ans)
+
+
+def run_cond_stream(ctx, n_groups, per_group):
+    model = None if getattr(ctx, "model_unavailable", False) else leanproc.LeanProc(ID)
+    try:
+        for g in range(n_groups):
+            r = ctx.rng("cond-group", g)
+            group = cd.gen_group(r)
+            try:
+                real = cd.CondReal(group)
+            except Exception as ex:
+                ctx.count("cond_boot_rejected")
+                ctx.notes.setdefault("cond_boot_rejected_examples", []).append(repr(ex)[:300]) \
+                    if len(ctx.notes.get("cond_boot_rejected_examples", [])) < 3 else None
+                continue
+            ctx.count("machines_booted")
+            try:
+                for j in range(per_group):
+                    if real.broken:
+                        real.close()
+                        real = cd.CondReal(group)
+                        ctx.count("machines_booted")
+                    case = cd.gen_case(ctx.rng("cond-case", g, j), group)
+                    before = len(ctx.failures)
+                    check_cond(ctx, real, model, group, case)
+                    if len(ctx.failures) > before:
+                        shrink_cond(ctx, before, group, case)
+            finally:
+                real.close()
+    finally:
+        if model is not None:
+            model.close()
+
+
+class _Probe:
+    def __init__(self):
+        self.failures = []
+    def fail(self, s, c, d):
+        self.failures.append({"signature": s, "case": c, "detail": d})
+    def count(self, *a, **k):
+        pass
+    def evaluated(self, *a, **k):
+        pass
+    def compare(self, *a, **k):
+        return True
+
+
+def cond_fails(group, case, sig):
+    real = cd.CondReal(group)
+    try:
+        p = _Probe()
+        check_cond(p, real, None, group, case, sample=False)
+        return [f for f in p.failures if f["signature"] == sig]
+    finally:
+        real.close()
+
+
+def shrink_cond(ctx, idx, group, case):
+    """drop config entries, plain handlers, actions and pre-operations one at a time while the same failure remains"""
+    sig = ctx.failures[idx]["signature"]
+    try:
+        best = None
+        g, c = group, case
+        if not cond_fails(g, c, sig):
+            return                  # depends on what earlier cases left on the machine: keep the unshrunk report
+        budget = 40
+        for what in ("entries", "handlers", "pre"):
+            i = 0
+            while budget > 0:
+                seq = g["entries"] if what == "entries" else c[what]
+                if i >= len(seq) or (what == "pre" and i < 3 and False):
+                    break
+                if what == "entries":
+                    g2, c2 = dict(g, entries=seq[:i] + seq[i + 1:]), c
+                else:
+                    g2, c2 = g, dict(c, **{what: seq[:i] + seq[i + 1:]})
+                budget -= 1
+                try:
+                    res = cond_fails(g2, c2, sig)
+                except Exception:
+                    res = None
+                if res:
+                    g, c, best = g2, c2, res
+                else:
+                    i += 1
+        if best:
+            del ctx.failures[idx:]
+            ctx.failures.append({"signature": sig, "case": util.canon(best[0]["case"]), "detail": util.canon(best[0]["detail"])})
+    except InfraError:
+        raise
+    except Exception:
+        pass
+
+
 E_MA = ("a", ("v", "machine"), "a")
 CORPUS = [
     (("c", "Eq", ("x", ("v", "machine"), ("k", "a")), ("k", 1)), "D10"),
@@ -555,10 +820,20 @@ def run(ctx):
                 e = tame(gen_expr(r, r.choice([2, 3, 4, 5, 6, 8, 10, 12])))
                 yield r, {"kind": "expr", "expr": e, "params": gen_params(r)}, None
     run_stream(ctx, stream())
+    run_cond_stream(ctx, ctx.n(120, 1500), 8)
 
 
 def replay(ctx, rep):
     case = rep["case"]
+    if case.get("kind") == "cond":
+        glb = {"ABSENT": ABSENT}
+        group, c = eval(case["group"], glb), eval(case["case"], glb)
+        real = cd.CondReal(group)
+        try:
+            check_cond(ctx, real, None, group, c, sample=False)
+        finally:
+            real.close()
+        return
     if "expr" not in case:
         real = Real()
         try:
